@@ -609,4 +609,310 @@ theorem enabled_iff {s : State τ} {k : Nat} {o : OpInfo τ} (ho : s.ops[k]? = s
       rw [hn] at hj
       exact ⟨n, List.mem_iff_getElem?.mpr ⟨j, hn⟩, by simpa using hj⟩
 
+
+/-! ### what `forward` never changes -/
+
+def NodeInfo.gskel (n : NodeInfo τ) : Nat × Option τ := (n.size, n.grad)
+def OpInfo.gskel (o : OpInfo τ) : Kind τ × List Addr × List (Nat × Option τ) :=
+  (o.kind, o.args, o.rets.map NodeInfo.gskel)
+def State.gskel (s : State τ) : List (Kind τ × List Addr × List (Nat × Option τ)) :=
+  s.ops.map OpInfo.gskel
+
+/-- `s'` differs from `s` at most in node values, `log`, `rndPos`, `failIn` -/
+structure FwdFrame (s s' : State τ) : Prop where
+  gskel : s'.gskel = s.gskel
+  params : s'.params = s.params
+  sample : s'.sample = s.sample
+
+theorem FwdFrame.refl (s : State τ) : FwdFrame s s := ⟨rfl, rfl, rfl⟩
+theorem FwdFrame.trans {s s' s'' : State τ} (h : FwdFrame s s') (h' : FwdFrame s' s'') : FwdFrame s s'' :=
+  ⟨h'.gskel.trans h.gskel, h'.params.trans h.params, h'.sample.trans h.sample⟩
+
+theorem storeValues_fwdFrame (s : State τ) (oid : Nat) (vals : List τ) : FwdFrame s (s.storeValues oid vals) := by
+  unfold State.storeValues
+  split
+  · exact FwdFrame.refl s
+  · rename_i o ho
+    refine ⟨?_, rfl, rfl⟩
+    simp only [State.gskel, List.map_set]
+    rw [list_set_eq_self]
+    intro y hy
+    rw [List.getElem?_map, ho] at hy
+    simp at hy
+    rw [← hy]
+    simp only [OpInfo.gskel, Prod.mk.injEq, true_and]
+    apply List.ext_getElem?
+    intro j
+    simp only [List.getElem?_map, List.getElem?_zipIdx]
+    cases o.rets[j]? with
+    | none => rfl
+    | some n =>
+      simp only [Option.map_some, Nat.zero_add]
+      cases vals[j]? <;> rfl
+
+theorem forwardArgsWith_rel (R : State τ → State τ → Prop) (hr : ∀ s, R s s)
+    (ht : ∀ s s' s'', R s s' → R s' s'' → R s s'')
+    (ev : State τ → Addr → State τ × Except Err τ) (hev : ∀ s a, R s (ev s a).1) :
+    ∀ (l : List Addr) (s : State τ), R s (forwardArgsWith ev s l).1 := by
+  intro l
+  induction l with
+  | nil => intro s; exact hr s
+  | cons a rest ih =>
+    intro s
+    simp only [forwardArgsWith]
+    have h1 := hev s a
+    rcases he : ev s a with ⟨s1, r⟩
+    rw [he] at h1
+    cases r with
+    | error e => exact h1
+    | ok v =>
+      simp only
+      have h2 := ih s1
+      rcases hf : forwardArgsWith ev s1 rest with ⟨s2, r2⟩
+      rw [hf] at h2
+      cases r2 with
+      | error e => exact ht _ _ _ h1 h2
+      | ok vs => exact ht _ _ _ h1 h2
+
+def opFaulty (k : Kind τ) : Bool :=
+  match k with
+  | .op sem => sem.faulty
+  | .rnd => true
+  | .param _ => false
+
+/-- the operator's own forward, after the fault schedule has been consulted -/
+def applyOpCore (s1 : State τ) (a : Addr) (kind : Kind τ) (n : NodeInfo τ) (xs : List τ) :
+    State τ × Except Err τ :=
+  match kind with
+  | .param _ => (s1, .error .crash)
+  | .rnd =>
+    let v := s1.sample s1.rndPos n.size
+    let s2 := { s1 with rndPos := s1.rndPos + 1, log := s1.log ++ [a.oid] }
+    (s2.storeValues a.oid [v], .ok v)
+  | .op sem =>
+    match sem.fwd xs with
+    | none => (s1, .error .error)
+    | some ys =>
+      let s2 := ({ s1 with log := s1.log ++ [a.oid] }).storeValues a.oid ys
+      match ys[a.vid]? with
+      | some v => (s2, .ok v)
+      | none => (s2, .error .crash)
+
+def applyOp (s1 : State τ) (a : Addr) (kind : Kind τ) (n : NodeInfo τ) (xs : List τ) :
+    State τ × Except Err τ :=
+  match (if opFaulty kind then s1.failIn else none) with
+  | some 0 => ({ s1 with failIn := none }, .error .error)
+  | fi => applyOpCore (if opFaulty kind then { s1 with failIn := fi.map (· - 1) } else s1) a kind n xs
+
+theorem forwardRec_succ (T : TOps τ) (fuel : Nat) (s : State τ) (a : Addr) :
+    forwardRec T (fuel + 1) s a =
+      match s.ops[a.oid]? with
+      | none => (s, .error .crash)
+      | some o =>
+        match o.kind with
+        | .param p => if a.vid = 0 then (s, .ok (s.params.value p)) else (s, .error .crash)
+        | _ =>
+          match o.rets[a.vid]? with
+          | none => (s, .error .crash)
+          | some n =>
+            match n.value with
+            | some v => (s, .ok v)
+            | none =>
+              match forwardArgsWith (forwardRec T fuel) s o.args with
+              | (s1, .error e) => (s1, .error e)
+              | (s1, .ok xs) => applyOp s1 a o.kind n xs := by
+  rw [forwardRec]
+  cases s.ops[a.oid]? with
+  | none => rfl
+  | some o =>
+    simp only
+    cases o.kind with
+    | param p => rfl
+    | rnd =>
+      simp only
+      cases o.rets[a.vid]? with
+      | none => rfl
+      | some n =>
+        simp only
+        cases n.value with
+        | some v => rfl
+        | none =>
+          simp only
+          rcases forwardArgsWith (forwardRec T fuel) s o.args with ⟨s1, r⟩
+          cases r <;> rfl
+    | op sem =>
+      simp only
+      cases o.rets[a.vid]? with
+      | none => rfl
+      | some n =>
+        simp only
+        cases n.value with
+        | some v => rfl
+        | none =>
+          simp only
+          rcases forwardArgsWith (forwardRec T fuel) s o.args with ⟨s1, r⟩
+          cases r <;> rfl
+
+/-- a reflexive-transitive relation respected by every operator forward is respected by `forward_recursive` -/
+theorem forwardRec_rel (T : TOps τ) (R : State τ → State τ → Prop) (hr : ∀ s, R s s)
+    (ht : ∀ s s' s'', R s s' → R s' s'' → R s s'')
+    (hop : ∀ s1 a kind n xs, R s1 (applyOp s1 a kind n xs).1) :
+    ∀ (fuel : Nat) (s : State τ) (a : Addr), R s (forwardRec T fuel s a).1 := by
+  intro fuel
+  induction fuel with
+  | zero => intro s a; exact hr s
+  | succ fuel ih =>
+    intro s a
+    rw [forwardRec_succ]
+    split
+    · exact hr s
+    · split
+      · split <;> exact hr s
+      · split
+        · exact hr s
+        · split
+          · exact hr s
+          · rename_i o _ _ _ _ n _ _ _
+            have h1 := forwardArgsWith_rel R hr ht (forwardRec T fuel) ih o.args s
+            rcases hf : forwardArgsWith (forwardRec T fuel) s o.args with ⟨s1, r⟩
+            rw [hf] at h1
+            cases r with
+            | error e => exact h1
+            | ok xs => exact ht _ _ _ h1 (hop s1 a o.kind n xs)
+
+theorem applyOpCore_fwdFrame (s1 : State τ) (a : Addr) (kind : Kind τ) (n : NodeInfo τ) (xs : List τ) :
+    FwdFrame s1 (applyOpCore s1 a kind n xs).1 := by
+  unfold applyOpCore
+  split
+  · exact FwdFrame.refl _
+  · dsimp only
+    refine FwdFrame.trans ?_ (storeValues_fwdFrame _ _ _)
+    exact ⟨rfl, rfl, rfl⟩
+  · split
+    · exact FwdFrame.refl _
+    · split <;> dsimp only <;> refine FwdFrame.trans ?_ (storeValues_fwdFrame _ _ _) <;> exact ⟨rfl, rfl, rfl⟩
+
+theorem applyOp_fwdFrame (s1 : State τ) (a : Addr) (kind : Kind τ) (n : NodeInfo τ) (xs : List τ) :
+    FwdFrame s1 (applyOp s1 a kind n xs).1 := by
+  have h2 : ∀ (c : Bool) (fi : Option Nat), FwdFrame s1 (if c = true then { s1 with failIn := fi } else s1) := by
+    intro c fi; split <;> exact ⟨rfl, rfl, rfl⟩
+  unfold applyOp
+  split
+  · exact ⟨rfl, rfl, rfl⟩
+  · exact (h2 _ _).trans (applyOpCore_fwdFrame _ _ _ _ _)
+
+theorem forwardRec_fwdFrame (T : TOps τ) (fuel : Nat) (s : State τ) (a : Addr) :
+    FwdFrame s (forwardRec T fuel s a).1 :=
+  forwardRec_rel T FwdFrame FwdFrame.refl (fun _ _ _ => FwdFrame.trans) applyOp_fwdFrame fuel s a
+
+theorem forward_fwdFrame (T : TOps τ) (s : State τ) (a : Addr) : FwdFrame s (forward T s a).1 := by
+  unfold forward
+  split
+  · exact forwardRec_fwdFrame T _ s a
+  · exact FwdFrame.refl s
+
+theorem gskel_op {s s' : State τ} (h : s'.gskel = s.gskel) (i : Nat) :
+    (s'.ops[i]?).map OpInfo.gskel = (s.ops[i]?).map OpInfo.gskel := by
+  have := congrArg (fun l => l[i]?) h
+  simpa [State.gskel, List.getElem?_map] using this
+
+theorem gskel_length {s s' : State τ} (h : s'.gskel = s.gskel) : s'.ops.length = s.ops.length := by
+  have := congrArg List.length h
+  simpa [State.gskel] using this
+
+theorem gskel_op_some {s s' : State τ} (h : s'.gskel = s.gskel) {i : Nat} {o : OpInfo τ} (ho : s.ops[i]? = some o) :
+    ∃ o', s'.ops[i]? = some o' ∧ o'.kind = o.kind ∧ o'.args = o.args ∧
+      o'.rets.map NodeInfo.gskel = o.rets.map NodeInfo.gskel := by
+  have := gskel_op h i
+  rw [ho] at this
+  cases h' : s'.ops[i]? with
+  | none => rw [h'] at this; simp at this
+  | some o' =>
+    rw [h'] at this
+    simp only [Option.map_some, Option.some.injEq, OpInfo.gskel, Prod.mk.injEq] at this
+    exact ⟨o', rfl, this.1, this.2.1, this.2.2⟩
+
+theorem gskel_op_none {s s' : State τ} (h : s'.gskel = s.gskel) {i : Nat} (ho : s.ops[i]? = none) :
+    s'.ops[i]? = none := by
+  have := gskel_op h i
+  rw [ho] at this
+  cases h' : s'.ops[i]? with
+  | none => rfl
+  | some o' => rw [h'] at this; simp at this
+
+theorem gskel_node {s s' : State τ} (h : s'.gskel = s.gskel) (a : Addr) :
+    (s'.node? a).map NodeInfo.gskel = (s.node? a).map NodeInfo.gskel := by
+  unfold State.node?
+  cases ho : s.ops[a.oid]? with
+  | none => rw [gskel_op_none h ho]
+  | some o =>
+    obtain ⟨o', ho', _, _, hr⟩ := gskel_op_some h ho
+    rw [ho']
+    have := congrArg (fun l => l[a.vid]?) hr
+    simpa [List.getElem?_map] using this
+
+theorem gskel_gradAt {s s' : State τ} (h : s'.gskel = s.gskel) (a : Addr) : s'.gradAt a = s.gradAt a := by
+  have := gskel_node h a
+  unfold State.gradAt
+  cases h1 : s'.node? a <;> cases h2 : s.node? a <;> rw [h1, h2] at this <;> simp_all [NodeInfo.gskel]
+
+theorem gskel_validAddr {s s' : State τ} (h : s'.gskel = s.gskel) (a : Addr) :
+    s'.validAddr a = s.validAddr a := by
+  unfold State.validAddr
+  cases ho : s.ops[a.oid]? with
+  | none => rw [gskel_op_none h ho]
+  | some o =>
+    obtain ⟨o', ho', _, _, hr⟩ := gskel_op_some h ho
+    rw [ho']
+    have := congrArg List.length hr
+    simp at this
+    simp [this]
+
+/-! ### `backward` = forward phase, seed, sweep -/
+
+/-- "force to perform the forward operation" -/
+def fwdPhase (T : TOps τ) (s : State τ) (a : Addr) : State τ × Except Err Unit :=
+  match s.node? a with
+  | some n => if n.value.isSome then (s, .ok ()) else
+      match forward T s a with
+      | (s1, .ok _) => (s1, .ok ())
+      | (s1, .error e) => (s1, .error e)
+  | none => (s, .error .crash)
+
+/-- "makes the identity gradient at the last node" -/
+def seed (T : TOps τ) (s : State τ) (a : Addr) : State τ :=
+  s.updNode a fun n => { n with grad := some (T.ones n.size) }
+
+theorem backward_eq (T : TOps τ) (s : State τ) (a : Addr) :
+    backward T s a =
+      if !s.validAddr a then (s, .error .crash)
+      else match fwdPhase T s a with
+        | (s1, .error e) => (s1, .error e)
+        | (s1, .ok ()) => sweep T (a.oid + 1) (seed T s1 a) := rfl
+
+theorem fwdPhase_fwdFrame (T : TOps τ) (s : State τ) (a : Addr) : FwdFrame s (fwdPhase T s a).1 := by
+  unfold fwdPhase
+  split
+  · split
+    · exact FwdFrame.refl s
+    · have := forward_fwdFrame T s a
+      rcases hf : forward T s a with ⟨s1, r⟩
+      rw [hf] at this
+      cases r <;> exact this
+  · exact FwdFrame.refl s
+
+theorem seed_sameFrame (T : TOps τ) (s : State τ) (a : Addr) : SameFrame s (seed T s a) :=
+  updNode_sameFrame s a _ (fun _ => rfl)
+
+@[simp] theorem seed_params (T : TOps τ) (s : State τ) (a : Addr) : (seed T s a).params = s.params := by
+  simp [seed]
+
+theorem gradAt_seed (T : TOps τ) (s : State τ) (a b : Addr) :
+    (seed T s a).gradAt b = if b = a then (s.node? a).map (fun n => T.ones n.size) else s.gradAt b := by
+  unfold seed
+  rw [gradAt_updNode]
+  by_cases h : b = a
+  · simp only [h, if_true]; cases s.node? a <;> rfl
+  · simp [h]
+
 end Primitiv.Graph
